@@ -218,9 +218,9 @@ func c20Case1(seed int64, idx int, c *c20Case) (map[string]any, []map[string]any
 							digGot[id] = d
 							dmu.Unlock()
 						}
-						io.WriteString(tc, "HTTP/1.1 200 OK\r\nContent-Length: 2\r\n\r\nok")
+						io.WriteString(tc, "HTTP/1.1 200 OK\r\nContent-Length: 2\r\nConnection: close\r\n\r\nok") // one exchange per upstream connection
 					} else {
-						fmt.Fprintf(tc, "HTTP/1.1 200 OK\r\nContent-Length: %d\r\n\r\n", per)
+						fmt.Fprintf(tc, "HTTP/1.1 200 OK\r\nContent-Length: %d\r\nConnection: close\r\n\r\n", per)
 						d, _ := source(tc, seed, id, per)
 						dmu.Lock()
 						digSent[id] = d
@@ -313,7 +313,11 @@ func c20Case1(seed int64, idx int, c *c20Case) (map[string]any, []map[string]any
 				digSent[id] = d
 				dmu.Unlock()
 				if r, err := cl.recv("POST", 60*time.Second); err != nil || r.Status != 200 {
-					fail(fmt.Sprintf("upload not answered: %v", err))
+					st, eh := 0, ""
+					if r != nil {
+						st, eh = r.Status, r.first("X-Forwarder-Error")
+					}
+					fail(fmt.Sprintf("upload not answered with 200: status %d %q, %v", st, eh, err))
 				}
 			} else {
 				cl.send([]byte("GET http://origin.test" + id + " HTTP/1.1\r\nHost: origin.test\r\n\r\n"))
